@@ -112,16 +112,21 @@ def check_obligations(prop, thorough=False):
 
 def load_corpus(max_edges=None):
     pairs = []
-    path = os.path.join(ROOT, "corpus", "pairs.jsonl")
-    if not os.path.exists(path):
-        return pairs
-    for line in open(path):
-        d = json.loads(line)
-        if max_edges is not None and d.get("edges", 0) > max_edges:
+    # pairs.jsonl: fixtures and calibration findings (tools/mkcorpus.py); seed_pairs.jsonl: the failing inputs
+    # found for past violations, e.g. for the seeded changes of DESIGN.md section 8 (tools/addcorpus.py)
+    for fn in ("pairs.jsonl", "seed_pairs.jsonl"):
+        path = os.path.join(ROOT, "corpus", fn)
+        if not os.path.exists(path):
             continue
-        a, _ = num.parse_mpoly(d["a"].split())
-        b, _ = num.parse_mpoly(d["b"].split())
-        pairs.append((d["family"], a, b, d["name"]))
+        for line in open(path):
+            if not line.strip():
+                continue
+            d = json.loads(line)
+            if max_edges is not None and d.get("edges", 0) > max_edges:
+                continue
+            a, _ = num.parse_mpoly(d["a"].split())
+            b, _ = num.parse_mpoly(d["b"].split())
+            pairs.append((d["family"], a, b, d["name"]))
     return pairs
 
 
